@@ -283,8 +283,15 @@ def one_case(ctx, cid, rng, path, idx):
                 df = df.set_axis({1: [k_ % 3 for k_ in range(len(df))], 2: rng.permutation(len(df)) + 2,
                                   3: [f"r{k_}" for k_ in range(len(df))]}[lab], axis=0)
                 c.feature("input-frame:non-default-row-labels")
-            out = sanitize_pixels(bins, is_one_based=one_based, tril_action=tril, sided_fields=("s",))(df.copy())
+            sanit_px = sanitize_pixels(bins, is_one_based=one_based, tril_action=tril, sided_fields=("s",))
+            frame = df.copy()
+            out = sanit_px(frame)
             c.feature("sided-fields")
+            if rng.random() < 0.5:
+                # history: the caller passes the SAME frame object again (e.g. to bin it for a second file);
+                # the answer must be the same - the shift / reflection may not accumulate in the caller's frame (F31)
+                out = sanit_px(frame)
+                c.feature("history:same-frame-sanitized-twice")
             wantp = {}
             for (a, b), v in P.items():
                 if tril is not None and a > b:
@@ -451,7 +458,13 @@ def one_case(ctx, cid, rng, path, idx):
                         raise r.exception
             else:
                 try:
-                    it = TabixAggregator(gzp, cs, gen.bt_frame(bt, categorical=True), is_one_based=one_based,
+                    tb = gen.bt_frame(bt, categorical=True)
+                    lab = int(rng.integers(3))
+                    if lab:
+                        # row labels of the bin table carry no meaning (a filtered / concatenated table keeps old ones)
+                        tb = tb.set_axis(np.arange(len(tb)) + 7 if lab == 1 else rng.permutation(len(tb)), axis=0)
+                        c.feature("bin-table:non-default-row-labels:tabix")
+                    it = TabixAggregator(gzp, cs, tb, is_one_based=one_based,
                                          n_chunks=int([1, 2, 3, 4, 5, 8][int(rng.integers(6))]), C2=2, P2=3)
                     cooler.create_cooler(out_uri, bins, it, ordered=True)
                 except (BadInputError, ValueError) as e:
